@@ -49,6 +49,15 @@ def remoteCase (inp impl : String) : CaseOut :=
     { model := "complete " ++ canon expected, spec := spec, implView := (if complete then "complete " else "INCOMPLETE ") ++ canon got,
       tags := ["order", s!"senders{min plan.length 6}", if total > 1024 then "over-one-writer-batch" else "within-one-writer-batch"],
       nontrivial := total ≥ 2 }
+  else if kind = "multi" then
+    -- two peers: what peer p receives is exactly the messages whose plan digit is p, in send order (the route table is
+    -- keyed by address: `Router.route_invariant`; per-target order: `C17.per_target_order`)
+    let iw := words impl
+    let plan : List Nat := ((kv iw "plan").getD "").toList.map fun c => c.toNat - '0'.toNat
+    let want (p : Nat) : String := String.intercalate "|" ((plan.zipIdx.filter (·.1 = p)).map fun x => s!"m{x.2}")
+    let model := s!"complete plan={(kv iw "plan").getD ""} a={want 0} b={want 1}"
+    { model := model, spec := if impl = model then "ok" else s!"FAIL:C17 messages for two peers: not each delivered once, in order, to the peer it was addressed to: [{impl}] expected [{model}]",
+      tags := ["multi-peer"], nontrivial := plan.length ≥ 4 }
   else if kind = "reqresp" then
     let n := (kvNat ws "n").getD 0
     let want := s!"ok={n} bad=0"
